@@ -433,7 +433,7 @@ func runC03(w *mon.W) {
 		case 0:
 			origin = "image of genbank.Parse over a generated file"
 			file := gen.WriteGB(rec, gen.RandLayout(r))
-			if p := mon.Try(func() { buf := []byte(file); x = genbank.Parse(buf); scribble(buf) }); p != "" {
+			if p := mon.Try(func() { buf := []byte(file); x = genbank.Parse(buf); unchangedThenScribble(w, id, "genbank.Parse", buf, file) }); p != "" {
 				// C01's subject
 				w.Add("parse_panics_skipped", 1)
 				w.End()
